@@ -40,6 +40,11 @@ func c17QueryRows(tag string, c *fileConn, which int, rows []drvRow) {
 func HarnessC17Seq() {
 	p1 := verifTempPath("c17a.updog")
 	p2 := verifTempPath("c17b.updog")
+	if verifBool("relative-paths") {
+		// data sources spelled file:name (relative to the working directory)
+		verifChdirTemp()
+		p1, p2 = "c17a.updog", "c17b.updog"
+	}
 	drvBuild(p1, c17Rows)
 	drvBuild(p2, c17RowsB) // different data: an answer taken from the other file is visible
 	// a third file is a bbolt database that is not an index: opening it fails, any number of
